@@ -53,8 +53,8 @@ func signTested(subject string) func(Atom) bool {
 func integerCodecRule(P *Program, R *Report) {
 	rule := "C18.a"
 	if fn := mustFunc(P, R, rule, kIntUnmXML); fn != nil {
-		mp(P, R, rule, kIntUnmXML+":non-negative", "nil => the decoded integer was tested non-negative", fn, AcceptNilErr(0), &MustPass{NoInterproc: true, Match: signTested("arg#0")})
-		mp(P, R, rule, kIntUnmXML+":base10", "nil => the text parsed as a base-10 integer", fn, AcceptNilErr(0), &MustPass{NoInterproc: true, Match: func(a Atom) bool {
+		mp(P, R, rule, kIntUnmXML+":non-negative", "nil => the decoded integer was tested non-negative", fn, AcceptNilErr(0), &MustPass{Match: signTested("arg#0")})
+		mp(P, R, rule, kIntUnmXML+":base10", "nil => the text parsed as a base-10 integer", fn, AcceptNilErr(0), &MustPass{Match: func(a Atom) bool {
 			c, idx := callAndResult(a.V)
 			if c == nil || bigMethod(c) != "SetString" || idx != 1 || a.Want != True {
 				return false
@@ -69,7 +69,7 @@ func integerCodecRule(P *Program, R *Report) {
 			d := desc(a.V)
 			return strings.HasPrefix(d, "(arg#1[0]") && ((strings.Contains(d, "!=34") && a.Want == False) || (strings.Contains(d, "==34") && a.Want == True))
 		}
-		mp(P, R, rule, kIntUnmJSON+":numeric-non-negative", "nil on the numeric (unquoted) branch => the decoded integer was tested non-negative", fn, AcceptNilErr(0), &MustPass{NoInterproc: true, Exempt: quoted, Match: signTested("arg#0")})
+		mp(P, R, rule, kIntUnmJSON+":numeric-non-negative", "nil on the numeric (unquoted) branch => the decoded integer was tested non-negative", fn, AcceptNilErr(0), &MustPass{Exempt: quoted, Match: signTested("arg#0")})
 		// quoted branch: SetBytes (unsigned by construction)
 		ok := false
 		for _, c := range callsIn(fn) {
@@ -80,7 +80,7 @@ func integerCodecRule(P *Program, R *Report) {
 		R.decide(rule, kIntUnmJSON+":quoted-unsigned", "the quoted (base64) branch decodes with SetBytes, i.e. as an unsigned magnitude", ok, "", P.Pos(fn.Pos()))
 	}
 	if fn := mustFunc(P, R, rule, kIntMarText); fn != nil {
-		mp(P, R, rule, kIntMarText+":refuses-negative", "text is produced only for a non-negative integer", fn, AcceptNilErr(1), &MustPass{NoInterproc: true, Match: func(a Atom) bool {
+		mp(P, R, rule, kIntMarText+":refuses-negative", "text is produced only for a non-negative integer", fn, AcceptNilErr(1), &MustPass{Match: func(a Atom) bool {
 			g, ok := parseGuard(a, nil)
 			if !ok || g.Kind != "big" || g.Subject != "arg#0" {
 				return false
@@ -93,7 +93,7 @@ func integerCodecRule(P *Program, R *Report) {
 		return
 	}
 	acc := AcceptNilErr(0)
-	mp(P, R, rule, kBasesUnm+":count", "nil => the num attribute equals the number of base elements", fn, acc, &MustPass{NoInterproc: true, Match: func(a Atom) bool {
+	mp(P, R, rule, kBasesUnm+":count", "nil => the num attribute equals the number of base elements", fn, acc, &MustPass{Match: func(a Atom) bool {
 		g, ok := parseGuard(a, nil)
 		if !ok || g.Kind != "int" || g.Rel != "==" {
 			return false
@@ -103,7 +103,7 @@ func integerCodecRule(P *Program, R *Report) {
 	}})
 	elem := func(body func(a Atom) bool) forAllMemo {
 		fa := &ForAll{P: P, Spec: ForAllSpec{Coll: is("makeslice"), Body: func(f *ssa.Function, l *Loop) *MustPass {
-			return &MustPass{NoInterproc: true, Match: body}
+			return &MustPass{Match: body}
 		}}}
 		return fa.inFn(fn, acc)
 	}
@@ -152,15 +152,15 @@ func keyLoaderRule(P *Program, R *Report) {
 		acc := AcceptNilErr(1)
 		for _, f := range []string{"N", "Z", "S"} {
 			f := f
-			mp(P, R, rule, kPubBytes+":"+f+"-present", "a key is returned only if element "+f+" was present", fn, acc, &MustPass{NoInterproc: true, Match: func(a Atom) bool {
+			mp(P, R, rule, kPubBytes+":"+f+"-present", "a key is returned only if element "+f+" was present", fn, acc, &MustPass{Match: func(a Atom) bool {
 				return desc(a.V) == "new:gabikeys.PublicKey."+f && a.Want == NonNil
 			}})
 		}
-		mp(P, R, rule, kPubBytes+":known-length", "a key is returned only if DefaultSystemParameters has an entry for the modulus length", fn, acc, &MustPass{NoInterproc: true, Match: func(a Atom) bool {
+		mp(P, R, rule, kPubBytes+":known-length", "a key is returned only if DefaultSystemParameters has an entry for the modulus length", fn, acc, &MustPass{Match: func(a Atom) bool {
 			d := desc(a.V)
 			return strings.HasPrefix(d, "has(global:gabikeys.DefaultSystemParameters[call:big.(*Int).BitLen(new:gabikeys.PublicKey.N)])") && a.Want == True
 		}})
-		mp(P, R, rule, kPubBytes+":revocation-key", "a key is returned only if its ECDSA key parsed", fn, acc, &MustPass{NoInterproc: true, Match: func(a Atom) bool {
+		mp(P, R, rule, kPubBytes+":revocation-key", "a key is returned only if its ECDSA key parsed", fn, acc, &MustPass{Match: func(a Atom) bool {
 			_, ok := callAtom(a, Nil, "gabikeys.(*PublicKey).parseRevocationKey")
 			return ok
 		}})
@@ -174,7 +174,7 @@ func keyLoaderRule(P *Program, R *Report) {
 		// no dereference of N before the nil test: the BitLen call is reached only after the test
 		for _, c := range callsIn(fn) {
 			if cc, ok := c.(*ssa.Call); ok && bigMethod(cc) != "" && desc(cc.Call.Args[0]) == "new:gabikeys.PublicKey.N" {
-				r := (&MustPass{P: P, NoInterproc: true, Match: func(a Atom) bool { return desc(a.V) == "new:gabikeys.PublicKey.N" && a.Want == NonNil }}).MustReach(fn, cc)
+				r := (&MustPass{P: P, Match: func(a Atom) bool { return desc(a.V) == "new:gabikeys.PublicKey.N" && a.Want == NonNil }}).MustReach(fn, cc)
 				R.decide(rule, kPubBytes+":N-checked-before-use", "n is used only after its nil test", r.Holds, r.Path, P.Pos(cc.Pos()))
 			}
 		}
@@ -204,12 +204,11 @@ func keyLoaderRule(P *Program, R *Report) {
 		pk := "new:gabikeys.PrivateKey"
 		for _, f := range []string{"P", "Q", "PPrime", "QPrime"} {
 			f := f
-			mp(P, R, rule, kPrivXML+":"+f+"-present", "a key is returned only if element "+f+" was present", fn, acc, &MustPass{NoInterproc: true, Match: func(a Atom) bool {
+			mp(P, R, rule, kPrivXML+":"+f+"-present", "a key is returned only if element "+f+" was present", fn, acc, &MustPass{Match: func(a Atom) bool {
 				return desc(a.V) == pk+"."+f && a.Want == NonNil
 			}})
 		}
-		mp(P, R, rule, kPrivXML+":validated", "outside demo mode a key is returned only if Validate() returned nil", fn, acc, &MustPass{NoInterproc: true,
-			Exempt: func(a Atom) bool { return desc(a.V) == "arg#1" && a.Want == True },
+		mp(P, R, rule, kPrivXML+":validated", "outside demo mode a key is returned only if Validate() returned nil", fn, acc, &MustPass{Exempt: func(a Atom) bool { return desc(a.V) == "arg#1" && a.Want == True },
 			Match: func(a Atom) bool {
 				c, ok := callAtom(a, Nil, "gabikeys.(*PrivateKey).Validate")
 				return ok && desc(c.Call.Args[0]) == pk
@@ -222,7 +221,7 @@ func keyLoaderRule(P *Program, R *Report) {
 			}
 		}
 		if val != nil {
-			r := (&MustPass{P: P, NoInterproc: true, Match: func(a Atom) bool { return desc(a.V) == pk+".P" && a.Want == NonNil }}).MustReach(fn, val)
+			r := (&MustPass{P: P, Match: func(a Atom) bool { return desc(a.V) == pk+".P" && a.Want == NonNil }}).MustReach(fn, val)
 			R.decide(rule, kPrivXML+":checked-before-validate", "Validate (which dereferences the elements) runs only after the presence tests", r.Holds, r.Path, P.Pos(val.Pos()))
 		}
 		be := P.bigEval(fn)
@@ -234,7 +233,7 @@ func keyLoaderRule(P *Program, R *Report) {
 		}
 		R.decide(rule, kPrivXML+":N", "N is recomputed as P*Q", got["N"] == tmul(tsym(pk+".P"), tsym(pk+".Q")).String(), got["N"], P.Pos(fn.Pos()))
 		R.decide(rule, kPrivXML+":Order", "Order is recomputed as PPrime*QPrime", got["Order"] == tmul(tsym(pk+".PPrime"), tsym(pk+".QPrime")).String(), got["Order"], P.Pos(fn.Pos()))
-		mp(P, R, rule, kPrivXML+":revocation-key", "a key is returned only if its ECDSA key parsed", fn, acc, &MustPass{NoInterproc: true, Match: func(a Atom) bool {
+		mp(P, R, rule, kPrivXML+":revocation-key", "a key is returned only if its ECDSA key parsed", fn, acc, &MustPass{Match: func(a Atom) bool {
 			_, ok := callAtom(a, Nil, "gabikeys.(*PrivateKey).parseRevocationKey")
 			return ok
 		}})
@@ -300,7 +299,7 @@ func fileModeRule(P *Program, R *Report) {
 				return ok && mm&0o077 == 0
 			}
 			// every path to the write passes a successful chmod of this file, or went through the other (exclusive) open
-			r := (&MustPass{P: P, NoInterproc: true, Match: isChmod, Instr: func(_ *ssa.Function, i ssa.Instruction) bool {
+			r := (&MustPass{P: P, Match: isChmod, Instr: func(_ *ssa.Function, i ssa.Instruction) bool {
 				oc, ok := i.(*ssa.Call)
 				return ok && oc != call && calleeName(oc) == "os.OpenFile"
 			}}).MustReach(g, writeCall)
@@ -316,7 +315,7 @@ func restoredFieldsRule(P *Program, R *Report) {
 	if cc != nil {
 		for _, c := range callsIn(cc) {
 			if isCallTo(c, "revocation.(*Proof).ChallengeContributions") {
-				r := (&MustPass{P: P, NoInterproc: true, Match: func(a Atom) bool {
+				r := (&MustPass{P: P, Match: func(a Atom) bool {
 					_, ok := callAtom(a, Nil, kSetExpected)
 					return ok
 				}}).MustReach(cc, c)
@@ -332,7 +331,7 @@ func restoredFieldsRule(P *Program, R *Report) {
 		}
 		for _, c := range callsIn(fn) {
 			if isCallTo(c, kProofDVWC) {
-				r := (&MustPass{P: P, NoInterproc: true, Match: func(a Atom) bool {
+				r := (&MustPass{P: P, Match: func(a Atom) bool {
 					cc, idx := callAndResult(a.V)
 					return cc != nil && calleeName(cc) == kProofDCC && idx == 1 && a.Want == Nil
 				}}).MustReach(fn, c)
@@ -431,7 +430,7 @@ func codecPairsRule(P *Program, R *Report) {
 				}
 			}
 			R.decide(rule, recv+"."+enc.m+"/"+enc.u, "both directions use the same intermediate type "+typ.inter+" through compress/uncompress", okM && okU && okUn, fmt.Sprintf("marshal=%v unmarshal=%v uncompress=%v", okM, okU, okUn), P.Pos(mf.Pos()))
-			mp(P, R, rule, recv+"."+enc.u+":error", "a decoding error is returned, not swallowed", uf, AcceptNilErr(0), &MustPass{NoInterproc: true, Match: func(a Atom) bool {
+			mp(P, R, rule, recv+"."+enc.u+":error", "a decoding error is returned, not swallowed", uf, AcceptNilErr(0), &MustPass{Match: func(a Atom) bool {
 				c, _ := callAndResult(a.V)
 				return c != nil && calleeName(c) == enc.uf && a.Want == Nil
 			}})
